@@ -94,8 +94,10 @@ func (b *Batch) Put(key []byte, value []byte) error {
 		b.cachedDataSize += newSize
 	} else {
 		// 如果缓存命中则直接修改缓存
-		logRecord.Key = key
-		logRecord.Value = value
+		// key 字节相同无需更新; value 必须拷贝, 不得持有调用方的切片
+		// 暂存记录可能已被 Delete 标记为删除, 需恢复为正常记录
+		logRecord.Type = datafile.LogRecordNormal
+		logRecord.Value = append(logRecord.Value[:0], value...)
 		b.cachedDataSize += newSize - oldSize
 	}
 	return nil
